@@ -74,8 +74,9 @@ package command
 //@ func (*command.executionContext).AppendLog
 //@   inline
 //@   requires log != nil && log.IdempotencyKey == e.parameters.IdempotencyKey        // C07: every kind of write carries the key of its request
-// C11: a transaction with a reference is only appended once the store said that no transaction carries it
-//@   requires in Commander).exec: tx != nil && (tx.Reference != "" ==> refFree[tx.Reference]) // C11
+// C11 C14: a transaction with a reference is only appended once the store said that no transaction carries it (in preview
+// mode too: a preview answers what the real write would answer, a conflict)
+//@   requires in Commander).exec: tx != nil && (tx.Reference != "" ==> refFree[tx.Reference]) // C11 C14
 // C14 C07: a request that carries a key computes its own answer only after the store said that nothing is recorded under
 // the key, in preview mode as well (a preview answers what the real write would answer: the recorded outcome)
 //@   requires e.parameters.IdempotencyKey != "" ==> ikFree[e.parameters.IdempotencyKey] // C14 C07
@@ -148,14 +149,22 @@ package command
 //@   ensures parameters.DryRun ==> published == old(published) && enqueued == old(enqueued) && commander.lastLog == old(commander.lastLog) && commander.lastTXID == old(commander.lastTXID)      // C14
 //@   ensures err != nil ==> published == old(published) && enqueued == old(enqueued)      // C06 C16
 //@   ensures err == nil && !parameters.DryRun ==> published == old(published) + 1      // C16
+// C06: a successful write corresponds to exactly one log entry handed to the batcher, whatever the metadata (an empty set too)
+// (or, for a replayed idempotency key, to the persisted entry recorded under that key)
+//@   ensures err == nil && !parameters.DryRun ==> (curLogFresh && enqueued == old(enqueued) + 1) || (!curLogFresh && parameters.IdempotencyKey != "" && curLog != nil && persisted[curLog] && curLog.IdempotencyKey == parameters.IdempotencyKey)      // C06
 //@   property C14 C16 C06 C07
+//@   alsofor C13
 
 //@ func (*command.Commander).DeleteMetadata
 //@   requires commander != nil && idle() && headOK(commander)
 //@   ensures parameters.DryRun ==> published == old(published) && enqueued == old(enqueued) && commander.lastLog == old(commander.lastLog) && commander.lastTXID == old(commander.lastTXID)      // C14
 //@   ensures err != nil ==> published == old(published) && enqueued == old(enqueued)      // C06 C16
 //@   ensures err == nil && !parameters.DryRun ==> published == old(published) + 1      // C16
+// C06: a successful write corresponds to exactly one log entry handed to the batcher, whatever the metadata (an empty set too)
+// (or, for a replayed idempotency key, to the persisted entry recorded under that key)
+//@   ensures err == nil && !parameters.DryRun ==> (curLogFresh && enqueued == old(enqueued) + 1) || (!curLogFresh && parameters.IdempotencyKey != "" && curLog != nil && persisted[curLog] && curLog.IdempotencyKey == parameters.IdempotencyKey)      // C06
 //@   property C14 C16 C06 C07
+//@   alsofor C13
 
 // ---- from the per-request protocol to "some serial order" (ground, over ghost timestamps).
 // Each request keeps its lock / reservation from before its read (balance read, store lookup) until after the
